@@ -1,6 +1,7 @@
 package main
 
 import (
+	"sync"
 	"go/types"
 	"fmt"
 	"os"
@@ -214,6 +215,7 @@ func (w *Walker) visit(fn *ssa.Function, env map[ssa.Value]*Term, init Facts, pa
 	}
 	w.memo[mk] = true
 	w.Visited[fn] = true
+	noteVisited(fn)
 	w.Paths++
 	onPath[fn] = true
 	defer delete(onPath, fn)
@@ -694,4 +696,16 @@ func chanElemShort(t types.Type) string {
 		return typeShort(ch.Elem())
 	}
 	return ""
+}
+
+// coverage bookkeeping (LH_COVERAGE): which library functions some walker has walked
+var (
+	visitedMu  sync.Mutex
+	visitedAll = map[string]bool{}
+)
+
+func noteVisited(fn *ssa.Function) {
+	visitedMu.Lock()
+	visitedAll[funcID(fn)] = true
+	visitedMu.Unlock()
 }
